@@ -13,6 +13,9 @@ Definition tok_range (tk : token) : option range :=
   | _ => None
   end.
 
+Definition is_decl (tk : token) : bool :=
+  match tk with TEntityDecl _ _ => true | _ => false end.
+
 Section BTok.
 Variable text : bytes.
 Variable C : Type.
@@ -23,7 +26,10 @@ Hypothesis Hev_r : forall tok r c c' p,
   tok_range tok = Some r -> ev tok c = Ok c' -> Inv p c -> p <= fst r -> fst r < snd r ->
   Inv (snd r) c'.
 Hypothesis Hev_0 : forall tok c c' p,
-  tok_range tok = None -> ev tok c = Ok c' -> Inv p c -> Inv p c'.
+  tok_range tok = None -> is_decl tok = false -> ev tok c = Ok c' -> Inv p c -> Inv p c'.
+(* entity declarations apart: they only occur inside a DOCTYPE *)
+Hypothesis Hev_e : forall n v c c' p,
+  ev (TEntityDecl n v) c = Ok c' -> Inv p c -> Inv p c'.
 
 Notation wfl := (wfl text).
 Notation mvk := (mvk text).
@@ -38,7 +44,8 @@ Ltac mono :=
 Ltac evfw :=
   match goal with
   | HI : Inv ?p ?c, H : ev ?tok ?c = Ok ?c' |- _ =>
-    first [ apply (Hev_0 tok c c' p eq_refl) in H; [ | exact HI ]
+    first [ apply (Hev_0 tok c c' p eq_refl eq_refl) in H; [ | exact HI ]
+          | apply (Hev_e _ _ c c' p) in H; [ | exact HI ]
           | eapply (Hev_r tok _ c c' p eq_refl) in H;
             [ cbn [fst snd] in H | exact HI | cbn [fst snd]; lia | cbn [fst snd]; lia ] ]
   end.
@@ -60,11 +67,11 @@ Definition tpost (k : N) (s : stream) (p : stream * C) : Prop :=
 
 Lemma tp_parse_comment s c s' c' : parse_comment text C ev s c = Ok (s', c') ->
   wfl s -> Inv (s_pos s) c -> mvk 1 s s' /\ Inv (s_pos s') c'.
-Proof. unfold parse_comment. intros H W HI. trun nop. Qed.
+Proof. clear Hev_e. unfold parse_comment. intros H W HI. trun nop. Qed.
 
 Lemma tp_parse_pi s c s' c' : parse_pi text C ev s c = Ok (s', c') ->
   wfl s -> Inv (s_pos s) c -> mvk 1 s s' /\ Inv (s_pos s') c'.
-Proof. unfold parse_pi. intros H W HI. trun nop. Qed.
+Proof. clear Hev_e. unfold parse_pi. intros H W HI. trun nop. Qed.
 
 Ltac call1 :=
   idtac; match goal with
@@ -75,7 +82,7 @@ Ltac call1 :=
 Lemma tp_parse_misc_loop fuel : forall s c s' c',
   parse_misc_loop text C ev fuel s c = Ok (s', c') ->
   wfl s -> Inv (s_pos s) c -> mvk 0 s s' /\ Inv (s_pos s') c'.
-Proof.
+Proof. clear Hev_e.
   induction fuel; intros s c s' c' H W HI; [discriminate|].
   cbn [parse_misc_loop] in H. trun call1; cfw H IHfuel; tfin.
 Qed.
@@ -112,30 +119,30 @@ Qed.
 Lemma tp_parse_element_loop fuel : forall ts s c o s' c',
   parse_element_loop text C ev fuel ts s c = Ok (o, s', c') ->
   wfl s -> Inv (s_pos s) c -> mvk 0 s s' /\ Inv (s_pos s') c'.
-Proof.
+Proof. clear Hev_e.
   induction fuel; intros ts s c o s' c' H W HI; [discriminate|].
   cbn [parse_element_loop] in H. trun nop; cfw H IHfuel; tfin.
 Qed.
 
 Lemma tp_parse_element s c o s' c' : parse_element text C ev s c = Ok (o, s', c') ->
   wfl s -> Inv (s_pos s) c -> mvk 1 s s' /\ Inv (s_pos s') c'.
-Proof.
+Proof. clear Hev_e.
   unfold parse_element. intros H W HI. trun nop. cfw H tp_parse_element_loop. tfin.
 Qed.
 
 Lemma tp_parse_cdata s c s' c' : parse_cdata text C ev s c = Ok (s', c') ->
   wfl s -> Inv (s_pos s) c -> mvk 1 s s' /\ Inv (s_pos s') c'.
-Proof. unfold parse_cdata. intros H W HI. trun nop. Qed.
+Proof. clear Hev_e. unfold parse_cdata. intros H W HI. trun nop. Qed.
 
 Lemma tp_parse_close_element s c s' c' : parse_close_element text C ev s c = Ok (s', c') ->
   wfl s -> Inv (s_pos s) c -> mvk 1 s s' /\ Inv (s_pos s') c'.
-Proof. unfold parse_close_element. intros H W HI. trun nop. Qed.
+Proof. clear Hev_e. unfold parse_close_element. intros H W HI. trun nop. Qed.
 
 (* parse_text: progress, or the stream did not move at all *)
 Lemma tp_parse_text s c s' c' : parse_text text C ev s c = Ok (s', c') ->
   wfl s -> Inv (s_pos s) c ->
   (s_pos s < s_pos s' /\ mvk 0 s s' /\ Inv (s_pos s') c') \/ s' = s.
-Proof.
+Proof. clear Hev_e.
   unfold parse_text. intros H W HI. bsteps.
   eapply mv_consume_chars in Hb; [|eassumption]. destruct Hb as [(? & ? & ?) [->|Hp]];
     [right; reflexivity|left].
@@ -173,7 +180,7 @@ Ltac call3 :=
 Lemma tp_parse_content_loop fuel : forall depth s c s' c',
   parse_content_loop text C ev fuel depth s c = Ok (s', c') ->
   wfl s -> Inv (s_pos s) c -> mvk 0 s s' /\ Inv (s_pos s') c'.
-Proof.
+Proof. clear Hev_e.
   induction fuel; intros depth s c s' c' H W HI; [discriminate|].
   cbn [parse_content_loop] in H.
   destruct (at_end s) eqn:He; [inversion H; subst; split; [apply mvk_refl|]; assumption|].
@@ -207,6 +214,27 @@ Proof.
   assert (E0 : s_end s0 = tlen text) by reflexivity.
   clearbody s0. clear HI.
   trun call4;
+  match goal with
+  | HI : Inv ?p c', W : wfl ?s |- _ => exists p; split; [ | exact HI ]
+  end; unfold BudgetStream.wfl in *; lia.
+Qed.
+
+(* without allow_dtd no entity declaration is ever delivered *)
+Theorem tp_parse_document_nodtd c c' : parse_document text C ev false c = Ok c' ->
+  Inv 0 c -> exists p, p <= tlen text /\ Inv p c'.
+Proof. clear Hev_e.
+  unfold parse_document. cbn [negb]. intros H HI.
+  assert (W := wfl_new text).
+  assert (HI0 : Inv (s_pos (stream_new text)) c) by exact HI.
+  set (s0 := stream_new text) in *.
+  assert (E0 : s_end s0 = tlen text) by reflexivity.
+  clearbody s0. clear HI.
+  trun ltac:(first [ call1
+    | match goal with
+      | W : wfl ?s, H : parse_misc _ _ _ ?s _ = Ok _ |- _ => cfw H tp_parse_misc
+      | W : wfl ?s, H : parse_element _ _ _ ?s _ = Ok _ |- _ => cfw H tp_parse_element
+      | W : wfl ?s, H : parse_content _ _ _ ?s _ = Ok _ |- _ => cfw H tp_parse_content
+      end ]);
   match goal with
   | HI : Inv ?p c', W : wfl ?s |- _ => exists p; split; [ | exact HI ]
   end; unfold BudgetStream.wfl in *; lia.
